@@ -1,7 +1,7 @@
 (* C11: VLAN-list commands change exactly the VLANs that differ.
    Declarative reference and the boolean property predicate. *)
 From Coq Require Import List String Ascii Bool Arith NArith.
-From Annet Require Import Base.Str Model.Vlan.
+From Annet Require Import Base.Str Model.Vlan Model.VlanDb.
 Import ListNotations.
 Open Scope string_scope.
 Open Scope list_scope.
@@ -230,3 +230,217 @@ Definition all3_fast (c : case) : bool :=
 (* (cases failing anything; then, among those only, which predicate failed) *)
 Definition check_data (kinds : list (string * rulek)) (data : string) : list N :=
   bad_cases kinds all3_fast data.
+
+(* ====================================================================================== *)
+(* The Huawei global VLAN database: `vlan batch` lines (any number) + `vlan N` blocks.     *)
+
+(* input: the old and the new VLAN database *)
+Definition input_db := (dbcfg * dbcfg)%type.
+Definition Sdb_old (x : input_db) : NS.t := set_of_db (fst x).
+Definition Sdb_new (x : input_db) : NS.t := set_of_db (snd x).
+
+(* ---- domain ---- *)
+
+Fixpoint nodup_ids (bs : list blk) : bool :=
+  match bs with [] => true | b :: r => negb (has_blk (fst b) r) && nodup_ids r end.
+
+(* option rows: no `undo ...` rows; at most one row per option rule (a VLAN has one name) *)
+Definition child_ok (row : string) : bool :=
+  match words row with w :: _ => negb (String.eqb w "undo") | [] => false end.
+
+Definition blk_ok (b : blk) : bool :=
+  forallb child_ok (snd b) &&
+  Nat.leb (List.length (filter (is_rule CName) (snd b))) 1 &&
+  Nat.leb (List.length (filter (is_rule CDescr) (snd b))) 1.
+
+(* batch lines: ranges lo <= hi, no VLAN written on two lines, no empty line; blocks: one
+   block per VLAN id *)
+Definition dbcfg_ok (c : dbcfg) : bool :=
+  config_ok k_batch (fst c) && nodup_ids (snd c) && forallb blk_ok (snd c).
+
+Definition wf_db (x : input_db) : bool := dbcfg_ok (fst x) && dbcfg_ok (snd x).
+
+(* every `vlan N` block of the new configuration whose VLAN was in the old batch is also in
+   the new batch (what a device prints: a block is always listed in `vlan batch` too).
+   Outside this guard the shipped code removes a VLAN of S_old & S_new (known finding). *)
+Definition blocks_follow_batch (x : input_db) : bool :=
+  forallb (fun b => negb (NS.mem (fst b) (set_of_lines (fst (fst x)))) ||
+                    NS.mem (fst b) (set_of_lines (fst (snd x))))
+          (snd (snd x)).
+
+(* ---- the property on a command list ---- *)
+
+Definition gcmds_ok (x : input_db) (cs : list gcmd) : bool :=
+  reaches (Sdb_old x) (Sdb_new x) (map effect cs) &&
+  keeps_common (Sdb_old x) (Sdb_new x) (map effect cs).
+
+(* P_C11_db x y: y = the top-level patch rows (with the rows inside `vlan N` blocks) the
+   implementation emitted for x (None = it raised) *)
+Definition P_C11_db (x : input_db) (y : option (list trow)) : bool :=
+  if wf_db x then
+    match y with
+    | None => false
+    | Some rows => match parse_gcmds rows with
+                   | None => false
+                   | Some cs => gcmds_ok x cs
+                   end
+    end
+  else true.
+
+(* ---- correspondence helpers ---- *)
+
+Definition opt_trows_perm_eqb (a b : option (list trow)) : bool :=
+  match a, b with
+  | Some p, Some q => perm_trow_eqb p q
+  | None, None => true
+  | _, _ => false
+  end.
+
+(* case = ((input, (old rows, new rows) as given to the implementation, in the order given),
+           implementation rows) *)
+Definition case_db := ((input_db * option (list trow * list trow)) * option (list trow))%type.
+
+(* the rows given to the implementation are the rows of the structured database (in any
+   top-level order), and the text-level model emits the implementation's rows up to order *)
+Definition agree_db (c : case_db) : bool :=
+  let x := fst (fst c) in
+  let po := print_db (fst x) in
+  let pn := print_db (snd x) in
+  let t := match snd (fst c) with Some t => t | None => (po, pn) end in
+  perm_trow_eqb po (fst t) && perm_trow_eqb pn (snd t) &&
+  opt_trows_perm_eqb (db_rows (fst t) (snd t)) (snd c).
+
+Definition holds_db (c : case_db) : bool := P_C11_db (fst (fst c)) (snd c).
+
+Definition struct_is_text_db (c : case_db) : bool :=
+  let x := fst (fst c) in
+  negb (wf_db x) ||
+  match db_struct (fst x) (snd x), db_rows (print_db (fst x)) (print_db (snd x)) with
+  | Some cs, Some rows => trows_eqb (map print_gcmd cs) rows
+  | None, None => true
+  | _, _ => false
+  end.
+
+(* ---- classification of a failing case ---- *)
+
+Definition removes_id (n : N) (g : gcmd) : bool :=
+  match effect g with
+  | Remove rs => NS.mem n (set_of_ranges rs)
+  | _ => false
+  end.
+
+(* the VLANs of the known-finding class: a block in the new configuration, in the old batch,
+   not in the new batch *)
+Definition dropped_blocks (x : input_db) : NS.t :=
+  fold_right (fun b s => if NS.mem (fst b) (set_of_lines (fst (fst x))) &&
+                            negb (NS.mem (fst b) (set_of_lines (fst (snd x))))
+                         then NS.add (fst b) s else s) NS.empty (snd (snd x)).
+
+(* the property with the VLANs w left out of both claims *)
+Definition gcmds_ok_modulo (x : input_db) (w : NS.t) (cs : list gcmd) : bool :=
+  NS.equal (NS.diff (simulate (map effect cs) (Sdb_old x)) w) (NS.diff (Sdb_new x) w) &&
+  forallb (NS.subset (NS.diff (NS.inter (Sdb_old x) (Sdb_new x)) w)) (states (map effect cs) (Sdb_old x)).
+
+Definition diagnose_db (x : input_db) (y : option (list trow)) : string :=
+  if negb (wf_db x) then "outside-domain" else
+  match y with
+  | None => "raised"
+  | Some rows =>
+    match parse_gcmds rows with
+    | None => "unreadable-command"
+    | Some cs =>
+      if gcmds_ok x cs then "ok"
+      else if negb (blocks_follow_batch x) && gcmds_ok_modulo x (dropped_blocks x) cs
+           then "block-kept-but-vlan-dropped-from-batch"
+      else if negb (keeps_common (Sdb_old x) (Sdb_new x) (map effect cs)) then "common-vlan-removed"
+      else "final-set-differs"
+    end
+  end.
+
+(* ---- compact case files for the database cases -------------------------------------
+       idx|given|out
+   given  : r/r/r~r/r   the top-level rows given to the implementation, old ~ new, where
+            r = row[>child row>child row...]
+   out    : "!" or the emitted top-level rows joined by "/", r as above
+   The structured input is READ from the given rows by Coq (device meaning of the range
+   syntax); agree_db then checks that printing it gives the given rows back. *)
+
+Definition c_gt : ascii := ">"%char.
+
+Definition decode_trow (s : string) : trow :=
+  match split_char c_gt s with h :: t => (h, t) | [] => (s, []) end.
+
+Definition decode_trows (s : string) : list trow := map decode_trow (split_ne c_slash s).
+
+Definition parse_db_row (r : trow) : option (line + blk) :=
+  match classify r with
+  | Some (inl row) =>
+    match strip_prefix ["vlan"; "batch"] (words row) with
+    | Some tl => option_map (fun rs => inl (false, rs)) (nonempty_ranges (hw_parse_ranges tl))
+    | None => None
+    end
+  | Some (inr b) => Some (inr b)
+  | None => None
+  end.
+
+Fixpoint parse_db (rs : list trow) : option dbcfg :=
+  match rs with
+  | [] => Some ([], [])
+  | r :: rest =>
+    match parse_db_row r, parse_db rest with
+    | Some (inl l), Some (ls, bs) => Some (l :: ls, bs)
+    | Some (inr b), Some (ls, bs) => Some (ls, b :: bs)
+    | _, _ => None
+    end
+  end.
+
+Definition decode_case_db (fields : list string) : option case_db :=
+  match fields with
+  | [g; out] =>
+    match split_char c_tilde g with
+    | [a; b] =>
+      let go := decode_trows a in
+      let gn := decode_trows b in
+      match parse_db go, parse_db gn with
+      | Some o, Some n =>
+        Some (((o, n), Some (go, gn)), if String.eqb out "!" then None else Some (decode_trows out))
+      | _, _ => None
+      end
+    | _ => None
+    end
+  | _ => None
+  end.
+
+Definition all3_db (c : case_db) : bool := agree_db c && holds_db c && struct_is_text_db c.
+
+(* what failed on a case, as a number: 1 = agree_db, 2 = holds_db, 4 = struct_is_text_db, plus
+   8 * class of the failure of the property (diagnose_db) *)
+Definition diag_class_db (x : input_db) (y : option (list trow)) : N :=
+  let d := diagnose_db x y in
+  if String.eqb d "ok" then 0
+  else if String.eqb d "block-kept-but-vlan-dropped-from-batch" then 1
+  else if String.eqb d "common-vlan-removed" then 2
+  else if String.eqb d "final-set-differs" then 3
+  else if String.eqb d "raised" then 4
+  else if String.eqb d "unreadable-command" then 5
+  else 6.
+
+Definition fail_code_db (c : case_db) : N :=
+  ((if agree_db c then 0 else 1) + (if holds_db c then 0 else 2) + (if struct_is_text_db c then 0 else 4) +
+   8 * (if holds_db c then 0 else diag_class_db (fst (fst c)) (snd c)))%N.
+
+(* (index, fail code) of the lines that fail anything; 255 = the line cannot be decoded *)
+Definition bad_line_db (l : string) : list (N * N) :=
+  match split_char c_bar l with
+  | i :: fields =>
+    if isdigit i then
+      match decode_case_db fields with
+      | Some c => if all3_db c then [] else [(N_of_str i, fail_code_db c)]
+      | None => [(N_of_str i, 255%N)]
+      end
+    else [(4294967295%N, 255%N)]
+  | [] => [(4294967295%N, 255%N)]
+  end.
+
+Definition check_data_db (data : string) : list (N * N) :=
+  flat_map bad_line_db (split_lines data).
